@@ -3,6 +3,7 @@ package rules
 import (
 	"fmt"
 	"go/token"
+	"go/types"
 	"sort"
 	"strings"
 
@@ -698,6 +699,24 @@ func (c *Ctx) checkRebuild(r *fnRef) {
 		for i := 0; i < res.Len(); i++ {
 			if res.At(i).Name() == name {
 				return i
+			}
+		}
+		// unnamed results: by position — kept is the first []int result, rm the second
+		// (the order is part of the exported signature)
+		var slices []int
+		for i := 0; i < res.Len(); i++ {
+			if sl, ok := res.At(i).Type().Underlying().(*types.Slice); ok {
+				if b, ok := sl.Elem().Underlying().(*types.Basic); ok && b.Kind() == types.Int {
+					slices = append(slices, i)
+				}
+			}
+		}
+		if len(slices) == 2 {
+			if name == "kept" {
+				return slices[0]
+			}
+			if name == "rm" {
+				return slices[1]
 			}
 		}
 		return -1
